@@ -16,7 +16,10 @@ for d in sorted(glob.glob("/verif/seeded/*/")):
             return "caught" + (f" (`{sig.group(1).strip()[:70]}`)" if sig else "")
         if t.startswith("OK") or "=> OK" in t: return "MISSED"
         return t[:40] or "?"
-    rows.append(f"| {name} | {what[:170]} | {needs[:150]} | {verdict(first)} | {verdict(latest) if latest else ''} |")
+    last = verdict(latest) if latest else ''
+    if m.get("neutralised"):
+        last = "no longer a defect: " + m["neutralised"].split(":")[0]
+    rows.append(f"| {name} | {what[:170]} | {needs[:150]} | {verdict(first)} | {last} |")
 table="| change | what it breaks | needs, to manifest | first contact | after strengthening (latest run) |\n|---|---|---|---|---|\n"+"\n".join(rows)
 p="/verif/DESIGN.md"; s=open(p).read()
 b="<!-- BEGIN GENERATED: seeded -->"; e="<!-- END GENERATED: seeded -->"
